@@ -22,6 +22,7 @@ type request struct {
 	World    string          `json:"world"`
 	Scenario json.RawMessage `json:"scenario"`
 	Events   bool            `json:"events,omitempty"`
+	Expect   []string        `json:"expect,omitempty"` // digests of the reference execution (same scenario without its history, fresh process)
 }
 
 func main() {
